@@ -345,6 +345,22 @@ def apply_model(sym, n, f, vals, mut_idx, st):
         return out
     if last == "len" and len(vals) == 1 and vals[0][0] == "prefix":
         return V(vals[0][2])       # x[..k].len() is k
+    if last == "len" and len(vals) == 1 and vals[0][0] == "call" and vals[0][1] == "std::ops::Index::index" and len(vals[0][2]) == 2 \
+            and vals[0][2][1][0] == "adt" and vals[0][2][1][1] == "RangeTo" and len(vals[0][2][1][3]) == 1:
+        return V(vals[0][2][1][3][0][1])       # x[..k].len() is k (the slicing itself succeeded)
+    # `it.rev().position(p)` over a slice iterator counts from the back: Some(len - 1 - i) where i = rposition(p)
+    if p == "std::iter::Iterator::position" and len(vals) == 2 and vals[0][0] == "call" and vals[0][1] == "std::iter::Iterator::rev" \
+            and len(vals[0][2]) == 1 and vals[0][2][0][0] == "call" and vals[0][2][0][1] == "core::slice::iter" and not mut_idx:
+        inner_it = vals[0][2][0]
+        xs_ = inner_it[2][0]
+        rp_ = ("call", "std::iter::Iterator::rposition", (inner_it, vals[1]))
+        ln_ = ("call", "core::slice::len", (xs_,))
+        if xs_[0] == "call" and xs_[1] == "std::ops::Index::index" and len(xs_[2]) == 2 and xs_[2][1][0] == "adt" and xs_[2][1][1] == "RangeTo":
+            ln_ = xs_[2][1][3][0][1]
+        out = []
+        for s1, is_some in fork_is(sym, st, rp_, "Some"):
+            out.append((s1, (VAL, some(lin_norm([(ln_, 1), (mk_payload(rp_, "Some", "0"), -1)], -1)) if is_some else NONE)))
+        return out
     if last == "len" and len(vals) == 1 and vals[0][0] == "const" and vals[0][2]:
         # the length of a byte-array / byte-string constant whose value the compiler printed
         import ast as _ast
